@@ -2,8 +2,7 @@
     FiniteFieldElement.to_bytes / from_bytes (fixed-width little-endian, width byte_length),
     byte_length = (order.bit_length() + 7) >> 3, PrimeFieldElement.signed_ / unsigned_ / __int__.
     A byte string is a list of integers in [0, 256). *)
-Require Import MPyC.Base.
-From Coq Require Import ZArith Lia List Bool.
+From Coq Require Import ZArith Lia List Bool Arith.
 Import ListNotations.
 Local Open Scope Z_scope.
 
